@@ -695,7 +695,10 @@ type SignStats struct {
 	RejCt0   int // iterations (that passed the two above) with ||ct0|| >= gamma2
 	RejHint  int // iterations (that passed the first two) with more than omega hint bits
 	ZNorm    int64
-	Hints    int
+	Hints    int // hint weight of the accepted attempt
+	// RejHintOmega1 counts restarts whose hint weight was exactly omega+1 (the
+	// smallest rejected weight); together with Hints == omega it pins the comparison.
+	RejHintOmega1 int
 }
 
 // SignOpts are knobs that exist for building boundary witnesses only.
@@ -816,6 +819,9 @@ func (p *Params) SignWith(skb, mprime, rnd []byte, st *SignStats, o *SignOpts) (
 		}
 		if badHint {
 			st.RejHint++
+			if cnt == p.Omega+1 {
+				st.RejHintOmega1++
+			}
 		}
 		if badCt0 || badHint {
 			continue
